@@ -107,5 +107,5 @@ MustFail(c) == LET dw == DeclWalk(c, 1, <<>>, FlagOvd(c)) IN
 
 \* classes this specification knows; anything else observed is left unjudged
 KnownClasses == {E_MissingFunds, E_Type, E_UnboundVar, E_UnboundFn, E_BadArity, E_InvalidType, E_MissingVar, E_NegBalance, E_NegAmount,
-                 E_AllotInSendAll, E_UnbInSendAll, E_Currency, E_AllotSum, E_MetaNotFound, E_BadPortion, E_BadMonetary, E_BadNumber, E_Experimental}
+                 E_AllotInSendAll, E_UnbInSendAll, E_Currency, E_AllotSum, E_MetaNotFound, E_BadPortion, E_BadMonetary, E_BadNumber, E_Experimental, E_BadAccount}
 =============================================================================
